@@ -128,21 +128,40 @@ def run_driver(mod, cases, tag):
         )
         procs.append((p, cout, len(sh)))
     outs = []
-    tmo = int(getattr(mod, "DRIVE_TIMEOUT", 1500))
-    for p, cout, n in procs:
+    # a shard gets 1500 s (quick) and at least 40 s per case in the thorough tier (machine load varies a lot); a shard that
+    # times out or dies without a result is re-run ONCE on its own before its cases are reported as driver crashes
+    tmo = max(int(getattr(mod, "DRIVE_TIMEOUT", 1500)), 40 * max(n for _, _, n in procs))
+
+    def collect(p, cout, limit):
         try:
-            so, se = p.communicate(timeout=tmo)
+            so, se = p.communicate(timeout=limit)
         except subprocess.TimeoutExpired:
             p.kill()
             so, se = p.communicate()
             se += "\nDRIVER TIMEOUT"
         if cout.exists():
             try:
-                outs.append(json.loads(cout.read_text()))
-                continue
+                return json.loads(cout.read_text()), se
             except Exception:  # noqa: BLE001
                 pass
-        outs.append([{"crash": "driver-died: " + (se or "")[-800:]}] * n)
+        return None, se
+
+    for k, (p, cout, n) in enumerate(procs):
+        res, se = collect(p, cout, tmo)
+        if res is None:
+            log(f"[{mod.ID}] driver shard {k} gave no result ({(se or '')[-120:].strip()!r}); re-running it once")
+            cin = work / f"in{k}.json"
+            if cout.exists():
+                cout.unlink()
+            p2 = subprocess.Popen(
+                [C.PY, "-m", "vlib.drive", mod.ID, str(cin), str(cout), str(work / f"w{k}r")],
+                env=C.impl_env(), cwd=str(C.VERIF / "tools"), stdout=subprocess.PIPE, stderr=subprocess.PIPE, text=True,
+            )
+            res, se = collect(p2, cout, 2 * tmo)
+        if res is not None:
+            outs.append(res)
+        else:
+            outs.append([{"crash": "driver-died: " + (se or "")[-800:]}] * n)
     obs = [None] * len(cases)
     for k, o in enumerate(outs):
         for j, x in enumerate(o):
